@@ -912,6 +912,30 @@ def np_floor(ex, st, args, kwargs):
     return L.map_scalar_or_arr(lambda x: V.neg(L.ceil_scalar(V.neg(x))), args[0], kind="f")
 
 
+def np_round(ex, st, args, kwargs):
+    """numpy.round / numpy.around with a concrete number of decimals: the result is k / 10**d for an integer k with
+    |k - x * 10**d| <= 1/2 (which neighbour a tie goes to is left open: sound for half-to-even and half-away alike)."""
+    d = kwargs.get("decimals", args[1] if len(args) > 1 else 0)
+    d = V.conc(d) if not isinstance(d, int) else d
+    if not isinstance(d, int) or isinstance(d, bool) or kwargs.get("out") is not None:
+        raise Unsupported("numpy.round with a non-constant number of decimals / out=")
+    L.used("numpy.round(x, d): nearest multiple of 10**-d (tie direction left open)")
+    import fractions
+
+    sc = fractions.Fraction(10) ** d
+
+    def one(x):
+        c = V.conc(x)
+        if c is not None and isinstance(c, int) and d >= 0:
+            return c
+        xr = V.R(x) * z3.RealVal(str(sc))
+        k = z3.Int("round!%d" % V.fresh_id())
+        L.ctx().fact(z3.And(2 * z3.ToReal(k) >= 2 * xr - 1, 2 * z3.ToReal(k) <= 2 * xr + 1))
+        return z3.ToReal(k) / z3.RealVal(str(sc))
+
+    return L.map_scalar_or_arr(one, args[0], kind="f")
+
+
 def np_isfinite(ex, st, args, kwargs):
     L.used("A-FP: reals carry no NaN / inf (isnan, isinf False; isfinite True)")
     a = L.as_arr(args[0])
@@ -1517,7 +1541,7 @@ def t_diag_embed(ex, st, args, kwargs):
 
 
 NP.update({"numpy.nonzero": np_nonzero, "numpy.flatnonzero": np_flatnonzero, "numpy.argwhere": np_argwhere, "numpy.std": np_std,
-           "numpy.floor": np_floor, "numpy.isfinite": np_isfinite, "numpy.isnan": np_isnan, "numpy.isinf": np_isnan, "numpy.inner": np_inner,
+           "numpy.floor": np_floor, "numpy.round": np_round, "numpy.around": np_round, "numpy.isfinite": np_isfinite, "numpy.isnan": np_isnan, "numpy.isinf": np_isnan, "numpy.inner": np_inner,
            "numpy.vdot": np_inner, "numpy.ptp": np_ptp, "numpy.cross": np_cross, "numpy.triu": np_tri(True), "numpy.tril": np_tri(False),
            "numpy.nanmin": np_min, "numpy.nanmax": np_max, "numpy.nansum": lambda ex, st, a, k: L.np_sum(a[0], _axis(a, k)),
            "numpy.reciprocal": lambda ex, st, a, k: L.binop("div", Fraction(1), a[0]),
